@@ -39,6 +39,12 @@ Mult(c, pat, t) == IF pat = "" THEN FromInt(1)
 RECURSIVE DemAt(_, _, _, _)
 DemAt(c, d, t, k) == IF k > Len(d) THEN Zero ELSE Add(Mul(Mul(N(d[k].base), Mult(c, d[k].pat, t)), N(c.DM)), DemAt(c, d, t, k + 1))
 Expected(c, j, t) == DemAt(c, j.dem, t, 1)
+\* with a category filter: only the demand entries of that category count (every entry, not only the first)
+RECURSIVE DemAtCat(_, _, _, _, _)
+DemAtCat(c, d, t, k, cat) == IF k > Len(d) THEN Zero
+                             ELSE Add(IF d[k].cat = cat THEN Mul(Mul(N(d[k].base), Mult(c, d[k].pat, t)), N(c.DM)) ELSE Zero,
+                                      DemAtCat(c, d, t, k + 1, cat))
+ExpectedCat(c, j, t) == DemAtCat(c, j.dem, t, 1, c.cat)
 \* one common period of all patterns: lcm of 24 h and every pattern's length * step
 PatNames(c) == DOMAIN c.patterns
 Period(c) == LET names == PatNames(c)
@@ -49,12 +55,18 @@ Period(c) == LET names == PatNames(c)
 RECURSIVE SumOver(_, _, _, _)
 SumOver(c, j, k, n) == IF k = n THEN Zero ELSE Add(Expected(c, j, k * c.Pat), SumOver(c, j, k + 1, n))
 Average(c, j) == LET n == Period(c) \div c.Pat IN <<SumOver(c, j, 0, n), FromInt(n)>>
+RECURSIVE SumOverCat(_, _, _, _)
+SumOverCat(c, j, k, n) == IF k = n THEN Zero ELSE Add(ExpectedCat(c, j, k * c.Pat), SumOverCat(c, j, k + 1, n))
+AverageCat(c, j) == LET n == Period(c) \div c.Pat IN <<SumOverCat(c, j, 0, n), FromInt(n)>>
 DemandClauses(c) ==
   LET bad(n, ok) == IF ok THEN {} ELSE {n} IN
   UNION {LET j == c.juncs[k] IN
          bad("C20.expected_demand@" \o j.name,
              \A q \in DOMAIN c.times : Close(N(c.obs.expected[j.name][q]), Expected(c, j, c.times[q]), Sci(1, -15), Tol))
          \cup bad("C20.avg_expected@" \o j.name, RClose(N(c.obs.avg[j.name]), Average(c, j), Sci(1, -15), Tol))
+         \cup bad("C20.expected_demand_category@" \o j.name,
+                  \A q \in DOMAIN c.times : Close(N(c.obs.expected_cat[j.name][q]), ExpectedCat(c, j, c.times[q]), Sci(1, -15), Tol))
+         \cup bad("C20.avg_expected_category@" \o j.name, RClose(N(c.obs.avg_cat[j.name]), AverageCat(c, j), Sci(1, -15), Tol))
          \cup bad("C20.population@" \o j.name,
                   \* pop = round(avg / R):  |pop * R - avg| <= R / 2
                   LET a == Average(c, j)  p == FromInt(c.obs.pop[j.name]) IN
